@@ -62,6 +62,7 @@ type SentReq struct {
 	Client string
 	Cmd    hapi.Cmd
 	T      int64
+	EvSeq  int // number of replies the node had produced when the request was handed to it
 }
 
 func (r *EngRun) Trace() string {
@@ -112,7 +113,7 @@ func EngineScenario(spec *EngSpec, monitors []MonitorFactory, oracles []Oracle, 
 			}
 			sc := node.NewMemClient("s")
 			send := func(cl hapi.Client, cmd hapi.Cmd) {
-				run.Sent = append(run.Sent, SentReq{Client: cl.Name(), Cmd: cmd, T: vrt.Elapsed()})
+				run.Sent = append(run.Sent, SentReq{Client: cl.Name(), Cmd: cmd, T: vrt.Elapsed(), EvSeq: len(node.Events())})
 				cl.Do(cmd.Build())
 			}
 			vrt.AdvanceTo(1100 * ms)
@@ -388,6 +389,88 @@ func OracleC01Quiescent(r *EngRun) []explore.Violation {
 			}
 			if same && len(k.Holds) > int(k.Holds[0].Count)+1 {
 				vs = append(vs, explore.Violation{Sig: "C01:more-than-count-plus-one", Msg: fmt.Sprintf("key %x: %d simultaneous holders although every holder has Count %d (%s)", k.Key[15], len(k.Holds), k.Holds[0].Count, holdsStr(k))})
+			}
+		}
+	}
+	return dedupe(vs)
+}
+
+// OracleC01Replies judges the grant rule on what the CLIENTS were told, with the Counts they sent (independent of the
+// node's own bookkeeping: a hold kept in a structure the snapshot does not reach is still a hold). A hold is DEFINITELY
+// outstanding from the moment its SUCCED reply was produced until its owner hands an unlock for it to the node (or
+// an EXPRIED notice for it is produced). A SUCCED reply that makes a LockId a new holder of a key is illegal if, at the
+// moment it was produced, the holds definitely outstanding on that key (those granted earlier and whose release had
+// not even been requested yet) exceed the request's Count or the Count the oldest of them asked for. Replies of
+// concurrent threads are recorded in the order they were produced; the rule only uses what that order proves.
+func OracleC01Replies(r *EngRun) []explore.Violation {
+	type kk struct {
+		db  uint8
+		key byte
+	}
+	type hold struct {
+		id      byte
+		count   uint16
+		from    int // index of the grant reply
+		relFrom int // number of replies produced when the first release request for it was handed in (or its EXPRIED index); -1: never
+		until   int64 // virtual instant before which the hold cannot have been ended by time
+	}
+	sent := map[string]SentReq{}
+	for _, s := range r.Sent {
+		sent[fmt.Sprintf("%s/%d", s.Client, s.Cmd.Req)] = s
+	}
+	holds := map[kk][]*hold{}
+	for i, e := range r.Events {
+		s, ok := sent[fmt.Sprintf("%s/%d", e.Client, e.Req)]
+		if ok && e.Cmd == 1 && e.Result == 0 && s.Cmd.Expried > 0 && e.LRCount == 1 {
+			k := kk{e.DB, e.Key[15]}
+			until := int64(1) << 62
+			if s.Cmd.ExpriedFlag&fUnlim == 0 {
+				until = e.T + unitNs(map[bool]string{true: "ms", false: map[bool]string{true: "min", false: "s"}[s.Cmd.ExpriedFlag&fMinute != 0]}[s.Cmd.ExpriedFlag&fMilli != 0], s.Cmd.Expried)
+			}
+			holds[k] = append(holds[k], &hold{id: e.LockId[15], count: s.Cmd.Count, from: i, relFrom: -1, until: until})
+		}
+	}
+	// release requests (any client: unlock by id or unlock-first) and expiry notices end "definitely outstanding"
+	for _, s := range r.Sent {
+		if s.Cmd.Type != 2 {
+			continue
+		}
+		for _, h := range holds[kk{s.Cmd.DB, s.Cmd.Key}] {
+			if (h.id == s.Cmd.Id || s.Cmd.Flag&0x01 != 0) && s.EvSeq >= h.from && (h.relFrom < 0 || s.EvSeq < h.relFrom) {
+				h.relFrom = s.EvSeq
+			}
+		}
+	}
+	for i, e := range r.Events {
+		if e.Result != 9 {
+			continue
+		}
+		for _, h := range holds[kk{e.DB, e.Key[15]}] {
+			if h.id == e.LockId[15] && i > h.from && (h.relFrom < 0 || i < h.relFrom) {
+				h.relFrom = i
+			}
+		}
+	}
+	var vs []explore.Violation
+	for k, hs := range holds {
+		for _, g := range hs {
+			others := 0
+			var oldest *hold
+			for _, h := range hs {
+				if h != g && h.from < g.from && (h.relFrom < 0 || h.relFrom > g.from) && r.Events[g.from].T < h.until {
+					others++
+					if oldest == nil || h.from < oldest.from {
+						oldest = h
+					}
+				}
+			}
+			if others > int(g.count) || (oldest != nil && others > int(oldest.count)) {
+				vs = append(vs, explore.Violation{Sig: "C01:client-told-it-holds-beyond-count", Msg: fmt.Sprintf("db%d key%d: LockId %d (Count %d as sent) was answered SUCCED as reply #%d while %d hold(s) granted earlier had not even been asked to be released (oldest asked for Count %d)", k.db, k.key, g.id, g.count, g.from, others, map[bool]uint16{true: 0, false: 0}[oldest == nil]+func() uint16 {
+					if oldest != nil {
+						return oldest.count
+					}
+					return 0
+				}())})
 			}
 		}
 	}
